@@ -87,4 +87,5 @@ class CobaMultiprocessor(Filter[Iterable[Any], Iterable[Any]]):
 
         except RuntimeError as e: #pragma: no cover
             #This happens when importing main causes this code to run again
+            if "bootstrapping phase" not in str(e): raise #a RuntimeError of the filter itself
             coba_exit(str(e))
